@@ -16,6 +16,6 @@ The property that your changes must break:
 Produce TWO independent changes to the non-test source code (each a separate small patch against the worktree's HEAD, touching different mechanisms) such that, for each:
   1. the code still compiles (`go build ./...` of the touched packages and their dependents) and the EXISTING tests of the touched package(s) still pass unmodified (`go test -vet=off -count=1 <touched packages>`; also run the tests of the 2-3 packages most likely to notice), 
   2. the property above is genuinely violated, but only under something specific: a particular interleaving of goroutines, a fault at a particular point, a multi-step sequence of operations, an unusual input, or two cooperating sites that each look fine alone - NOT something ordinary use exposes at once; prefer the kind of mistake a real refactoring or optimisation could introduce (a dropped re-check, a condition narrowed, a lock scope shrunk, a merge that forgets a field, a cache key that forgets an attribute, an early return, an off-by-one in a boundary), not sabotage,
-  3. you provide a demonstration: a new Go test file (placed next to the touched code in the worktree, name it zz_seed_<n>_test.go) that FAILS with your change applied and PASSES on the unchanged tree (verify both by stashing your change). The demonstration may use internal identifiers and may construct the specific interleaving with channels/hooks, but must not depend on wall-clock races: it must fail deterministically (run it 3 times).
-Work method: read the code that implements the property first (find it with grep; start from pilot/pkg, pkg/, security/pkg as appropriate), pick two distinct mechanisms, make one change, write its demonstration, verify (fails with / passes without), save it, `git stash`/revert, then do the second.
+  3. you provide a demonstration: a new Go test file (placed next to the touched code in the worktree, name it zz_seed_<n>_test.go) that FAILS with your change applied and PASSES on the unchanged tree (verify both: save your change with `git diff > {wt}-out/tmp.patch`, undo it with `git checkout -- <files>`, re-apply with `git apply {wt}-out/tmp.patch`; NEVER use `git stash`: the stash is shared with other checkouts of this repository). The demonstration may use internal identifiers and may construct the specific interleaving with channels/hooks, but must not depend on wall-clock races: it must fail deterministically (run it 3 times).
+Work method: read the code that implements the property first (find it with grep; start from pilot/pkg, pkg/, security/pkg as appropriate), pick two distinct mechanisms, make one change, write its demonstration, verify (fails with / passes without), save it, revert it (`git checkout -- .`), then do the second. Other engineers have already tried the most obvious place for this property; prefer a second- or third-most obvious mechanism (a helper, a cache, an index, a fast path, a less common configuration kind or protocol flavour) over the first function that comes to mind. Keep your CPU use moderate (`go test -p 4`).
 Deliverables, written under {wt}-out/ (create the directory): for n in 1,2: {wt}-out/seed<n>/patch.diff (output of `git diff` of the source change only, WITHOUT the demonstration test), {wt}-out/seed<n>/demo_test.go (the demonstration test file, with a first-line comment saying in which package directory it must be placed), {wt}-out/seed<n>/NOTES.md (what the change is, why it breaks the property, what it needs in order to manifest, the exact commands you ran and their results: build, existing package tests, demonstration with and without the change). Leave the worktree clean (git checkout -- . ; remove your test files) when you finish. Report a short summary of the two changes at the end.""")
